@@ -9,6 +9,7 @@
 EXTENDS FMAst, Json
 
 CONSTANTS ANames, BinOps, Depth, GrowSteps, WithArith
+CONSTANTS NegLits      \* K >= 0: the initial trees are NegLitTrees(ANames, BinOps, K) instead (-1 written as 0 with Depth >= 1: see Init)
 
 CONSTANTS Walks, Seed     \* 0: exhaustive set of initial trees; n > 0: n seeded random walks growing deeper trees
 
@@ -42,7 +43,8 @@ Hash(salt) == Mix(Mix(Mix(Mix(Seed, walk), TLCGet("level")), salt), SizeT(t))
 PickS(S, salt) == LET q == SetToSeq(S) IN q[(Hash(salt) % Len(q)) + 1]
 
 Init == IF Walks = 0
-        THEN walk = 0 /\ t \in TreesOver(ANames, BinOps, Depth) \cup (IF WithArith THEN ArithShapes ELSE {})
+        THEN walk = 0 /\ t \in (IF NegLits > 0 THEN NegLitTrees(ANames, BinOps, NegLits) ELSE TreesOver(ANames, BinOps, Depth))
+                                \cup (IF WithArith THEN ArithShapes ELSE {})
         ELSE walk \in 1..Walks /\ t = SetToSeq(Small)[(Mix(Mix(Seed, walk), 7) % Cardinality(Small)) + 1]
 
 \* one seeded random step per state: a walk is a single behaviour of growing trees
